@@ -206,7 +206,9 @@ class PipelineSurface(core.Surface):
 
     def agree(self, x, i, m):
         if i[0] == "OK" and m[0] == "OK":
-            return True
+            # the queries asked of the resolved model a second time, after expand_actions() and another resolve() ran on the same
+            # objects, must answer as they did the first time (computed by robgen.pipeline; the audit found it was never read)
+            return bool(i[1]["summary"].get("again_same", True))
         # while a failing case is being shrunk, only candidates that fail in the SAME way count as still failing
         # (otherwise any template the shrinker damages into an invalid one would qualify)
         if x.get("stream") != "main" and i[0] == "EXC" and i[1] == "EValidation":
